@@ -295,6 +295,32 @@ fn cmd_topic(args: &[String]) {
                 };
                 log.emit("parse", json!({"case": k, "api": "is_valid", "segs": c["segs"], "ns": c["ns"], "tp": c["tp"],
                     "res": res, "printed_eq": false}));
+                // The grammar is a function of the name: what the validator was asked before must not
+                // matter.  The same words are validated in the opposite roles (and next to neutral
+                // partners), then the case is decided again.
+                let _ = catch_unwind(AssertUnwindSafe(|| {
+                    let _ = TopicName::create(&tp, &ns);
+                    let _ = TopicName::_create_unchecked(&tp, &ns).is_valid();
+                    let _ = TopicName::create("neutral", &ns);
+                    let _ = TopicName::create(&tp, "neutral");
+                    let _ = TopicName::try_from(format!("/{tp}/{ns}").as_str());
+                }));
+                let r = catch_unwind(AssertUnwindSafe(|| TopicName::create(&ns, &tp)));
+                let res = match r {
+                    Ok(Ok(_)) => "accept",
+                    Ok(Err(_)) => "reject",
+                    Err(_) => "panic",
+                };
+                log.emit("parse", json!({"case": k, "api": "create", "segs": c["segs"], "ns": c["ns"], "tp": c["tp"],
+                    "res": res, "printed_eq": false, "history": "after_opposite_roles"}));
+                let r = catch_unwind(AssertUnwindSafe(|| TopicName::_create_unchecked(&ns, &tp).is_valid()));
+                let res = match r {
+                    Ok(true) => "accept",
+                    Ok(false) => "reject",
+                    Err(_) => "panic",
+                };
+                log.emit("parse", json!({"case": k, "api": "is_valid", "segs": c["segs"], "ns": c["ns"], "tp": c["tp"],
+                    "res": res, "printed_eq": false, "history": "after_opposite_roles"}));
             }
         }
     }
